@@ -852,8 +852,14 @@ class C06(Property):
             if tr == "x" and open_inst and case["status"] == "COMPLETED" and not case["drop_iterterm"]:
                 ctx.fail("checklist:terminated-while-iterating", f"step stopped reading after {e} while instances {sorted(open_inst)} are iterating", case)
                 break
+        # the step as a whole: what it put on its output port (the combinator's numbering) and how it terminated
+        log = list(p_out.token_list)
+        outs = [t.tag for t in log if not isinstance(t, TerminationToken)]
+        terms = [t for t in log if isinstance(t, TerminationToken)]
+        term = "-" if not terms else terms[0].value.name if (len(terms) == 1 and log[-1] is terms[0]) else "MISPLACED"
+        exp = (("".join(trace) or "-") + "|out=" + (",".join(outs) or "-") + "|term=" + term, case)
         self._lines.append("checklist " + " ".join(words))
-        self._expect.append(("".join(trace) or "-", case))
+        self._expect.append(exp)
         ctx.case({"case": case, "events": words[:10], "trace": "".join(trace)}, ("checklist", tuple(words)), "checklist")
 
     # --------------------------------------------------------------------------------------------
